@@ -21,6 +21,9 @@ class Random:
             raise ValueError("random_float: start must be <= end")
 
         if precision is Nil:
+            if (end - start) == float("inf"):
+                # random.uniform computes start + (end - start) * u, which overflows here
+                return min(max(2 * random.uniform(start / 2, end / 2), start), end)
             return random.uniform(start, end)
 
         scale_factor = 10 ** precision
